@@ -4,7 +4,7 @@ import json, os, subprocess
 
 VERIF = os.path.dirname(os.path.dirname(os.path.abspath(__file__)))
 
-HOOK_COMMITS = ["b2d3fbf", "041d87c", "4c251be"]
+HOOK_COMMITS = ["b2d3fbf", "041d87c", "4c251be", "2fc1294"]
 
 CLAIMED = {
     "C03": dict(
@@ -73,9 +73,9 @@ CLAIMED = {
     "C20": dict(
         category="exploration",
         ref="DESIGN.md §5 C20",
-        technique="simulation of a reactive component on a simulated key device: exhaustive short key histories plus seeded long ones against a reference line editor after every key (weakest fit for the family: no fault kind beyond pre-existing history, stated)",
-        text="Every key history of length <=3 (quick) / <=4 (thorough) over a 14-key alphabet from an empty and a non-empty history is enumerated, plus 60k/4M seeded histories of up to 47 keys; after every key the real editor's line, cursor, history focus and end-of-line equal RefEditor's, the cursor stays inside the line, nothing panics; the real read() path returns the reference's commands and history.",
-        note="Trusted: RefEditor (doc comments of terminal.rs, Vim word rules with adopted end-of-line corner); guarded constructor without history file.",
+        technique="simulation of a reactive component on a simulated key device: exhaustive short key histories plus seeded long ones against a reference line editor after every key; the history file (the editor's only durable state) is real file I/O in a scratch cache directory with injected damage (blank line, invalid UTF-8, CRLF, no final newline, directory in its place, 1000+ lines)",
+        text="Every key history of length <=3 (quick) / <=4 (thorough) over a 14-key alphabet from an empty and a non-empty history is enumerated, plus 60k/4M seeded histories of up to 47 keys; after every key the real editor's line, cursor, history focus and end-of-line equal RefEditor's, the cursor stays inside the line, nothing panics; the real read() path returns the reference's commands and history. One third of the seeded runs build the terminal with the real constructor on a prepared (and for half of them damaged) history file and check the loaded list and the bytes appended; one fifth add a whole debugger session (--command first, then typed lines with history recall).",
+        note="Trusted: RefEditor (doc comments of terminal.rs, Vim word rules with adopted end-of-line corner); guarded constructors (with and without history file); XDG_CACHE_HOME pointed at a per-process scratch directory.",
     ),
     "C06": dict(
         category="exploration",
